@@ -52,6 +52,7 @@ func ep0(ap *ssa.Function) []Sink {
 
 func c11(p *P) {
 	r := p.r
+	p.gAppendBufferFresh("C11.R1")
 	r.Explanation = "Static necessary conditions of WAL durability: (R1) Append's nil return is reachable only after rotate-check ≺ marshal ≺ write to the active file ≺ fsync, each error guarding the next step, and the per-file epoch bookkeeping happens after the rotation decision and after the fsync, on the file that received the entry; (R2) the reader appends an entry only on a successful decode, into a fresh variable, returns the accumulated prefix on EVERY exit after a successful open (a torn tail keeps what precedes it) together with the running max epoch over all decoded entries regardless of how the loop ended; (R3) every write-mode open is O_CREATE|O_EXCL without O_APPEND/O_TRUNC under a fresh time-stamped name; only rotate installs the active file; restart (hydrate) never re-opens an old file for writing; (R4) files are removed only in Purge, only from the closed-file list, only when maxEpoch < keepEpoch; kept files stay listed; (R5) flush: fsync ≺ close ≺ register the file's stat; (R6) exported methods hold the lock."
 	r.NotDecided = "that a torn CBOR record never decodes as a valid shorter record (prefix-freeness of the encoding); filesystem durability semantics of fsync/rename; directory fsync."
 	r.Assumptions = []string{"AS1: a successful fsync makes preceding writes durable", "AS6: go/types, go/ssa and the rule tables are correct"}
